@@ -208,6 +208,13 @@ SPECFUNCS = {
     # what every block (other than one carrying an administrative record, whose data is re-generated from
     # the record object by Bundle._update_from_admin) will put on the wire is as it was
     'wire_kept': ([], 'forall(b, "Pkt[CanonicalBlock]", b._pcls == tag_of("AdminRecord") or wire_btsd(b) == old(wire_btsd(b)))'),
+    # as the decoder leaves a bundle: a block carries an AdminRecord object only if the primary block says so
+    'admin_coherent': (['b'], 'b.primary is not None and forall(x, "Pkt[CanonicalBlock]", implies('
+                              'contains(b.blocks, x) and x._pcls == tag_of("AdminRecord"), '
+                              'flag(unwrap(b.primary).bundle_flags, F_ADMIN)))'),
+    'crc_type_ok': (['x'], 'x.crc_type == 0 or x.crc_type == 1 or x.crc_type == 2'),
+    'flags_nonneg_kept': ([], 'forall(p, "Pkt[PrimaryBlock]", implies(old(p.bundle_flags) >= 0, p.bundle_flags >= 0))'),
+    'flags_kept': (['b'], 'b.primary is None or unwrap(b.primary).bundle_flags == old(unwrap(b.primary).bundle_flags)'),
     # every block of the bundle passes its CRC check
     'crc_all_valid': (['b'], '(b.primary is None or crc_ok(unwrap(b.primary))) and '
                              'forall(i, 0, length(b.blocks), crc_ok(b.blocks[i]))'),
@@ -282,14 +289,17 @@ FUNCS = {
         loops={0: dict(invariant=[
             ('failures_so_far', 'is_empty_set(fail) == ((self.primary is None or crc_ok(unwrap(self.primary))) and '
                                 'forall(k, 0, _i, crc_ok(_seq[k])))'),
-            ('verdicts_stable', 'forall(b, "Pkt[CanonicalBlock]", crc_ok(b) == old(crc_ok(b)) and '
-                                'eqv(b.crc_value, old(b.crc_value)) and b.crc_type == old(b.crc_type)) and '
-                                'forall(p, "Pkt[PrimaryBlock]", crc_ok(p) == old(crc_ok(p)) and eqv(p.crc_value, old(p.crc_value)))'),
+            ('block_verdicts_stable', 'forall(b, "Pkt[CanonicalBlock]", crc_ok(b) == old(crc_ok(b)) and '
+                                      'eqv(b.crc_value, old(b.crc_value)) and b.crc_type == old(b.crc_type))'),
+            ('primary_verdict_stable', 'forall(p, "Pkt[PrimaryBlock]", crc_ok(p) == old(crc_ok(p)))'),
+            ('primary_crc_field_stable', 'forall(p, "Pkt[PrimaryBlock]", eqv(p.crc_value, old(p.crc_value)))'),
         ])},
         ensures=[
             ('fails_iff_some_crc_bad', 'is_empty_set(result) == old(crc_all_valid(self))', ['C08']),
             ('crc_fields_as_before', 'forall(b, "Pkt[CanonicalBlock]", eqv(b.crc_value, old(b.crc_value))) and '
                                      'forall(p, "Pkt[PrimaryBlock]", eqv(p.crc_value, old(p.crc_value)))', ['C08']),
+            ('verdicts_stable', 'forall(b, "Pkt[CanonicalBlock]", crc_ok(b) == old(crc_ok(b))) and '
+                                'forall(p, "Pkt[PrimaryBlock]", crc_ok(p) == old(crc_ok(p)))', []),
         ],
     ),
     'bp.encoding.bundle:Bundle._update_from_admin': dict(
@@ -299,6 +309,10 @@ FUNCS = {
         modifies=['pkt:PrimaryBlock.bundle_flags', 'pkt:CanonicalBlock.type_code', 'pkt:CanonicalBlock.btsd'],
         ensures=[('crc_types_kept', 'forall(b, "Pkt[CanonicalBlock]", b.crc_type == old(b.crc_type))'),
                  ('other_blocks_kept', 'wire_kept()'),
+                 ('coherent_bundle_keeps_its_flags', 'implies(old(admin_coherent(self)), flags_kept(self))'),
+                 ('flags_stay_nonnegative', 'flags_nonneg_kept()'),
+                 ('only_this_bundle', 'forall(p, "Pkt[PrimaryBlock]", implies(not eqv(self.primary, p), '
+                                      'p.bundle_flags == old(p.bundle_flags)))'),
                  ('primary_still_there', 'eqv(self.primary, old(self.primary)) and self.blocks == old(self.blocks)')],
     ),
     'bp.encoding.bundle:Bundle.update_all_crc': dict(
@@ -311,9 +325,15 @@ FUNCS = {
             ('done_so_far', 'forall(k, 0, _i, crc_ok(_seq[k]))'),
             ('types_known', 'crc_types_known(self) and self.blocks == old(self.blocks) and eqv(self.primary, old(self.primary))'),
             ('wire_data_kept', 'wire_kept()'),
+            ('flags', 'implies(old(admin_coherent(self)), flags_kept(self)) and forall(p, "Pkt[PrimaryBlock]", '
+                      'implies(not eqv(self.primary, p), p.bundle_flags == old(p.bundle_flags))) and flags_nonneg_kept()'),
         ])},
         ensures=[
             ('wire_data_kept', 'wire_kept()', ['C11']),
+            ('flags_stay_nonnegative', 'flags_nonneg_kept()', []),
+            ('coherent_bundle_keeps_its_flags', 'implies(old(admin_coherent(self)), flags_kept(self))', ['C11']),
+            ('only_this_bundle', 'forall(p, "Pkt[PrimaryBlock]", implies(not eqv(self.primary, p), '
+                                 'p.bundle_flags == old(p.bundle_flags)))', []),
             ('every_block_carries_its_crc', 'crc_all_valid(self)', ['C08']),
             ('crc_current', 'contains(ghost.crc_ok, self)', ['C08']),
         ],
